@@ -31,7 +31,7 @@ Proof.
   { subst n2. unfold reset_snapshot_files.
     transitivity (vol (persist n1)); [reflexivity|]. rewrite vol_persist. reflexivity. }
   unfold new_opmanager.
-  match goal with |- vol (?x <| n_pending := _ |> <| n_ro := _ |> <| n_should_verify := _ |> <| n_lease := _ |>) = _ =>
+  match goal with |- vol (?x <| n_pending := _ |> <| n_ro := _ |> <| n_should_verify := _ |> <| n_hb_rounds := _ |> <| n_lease := _ |>) = _ =>
     transitivity (vol x); [reflexivity|] end.
   rewrite !vol_respond_all. exact E.
 Qed.
